@@ -1,7 +1,6 @@
-package h20
+package h40
 
 import (
-	gocvss20 "github.com/pandatix/go-cvss/20"
 	"verifharness/verif"
 )
 
@@ -9,7 +8,7 @@ import (
 // succeeds, makes Get(abv) == v and leaves every other metric unchanged, or
 // fails and leaves the object unchanged. The result is reachable again (I2).
 func C07_Set() {
-	var c gocvss20.CVSS20
+	var c CVSS
 	verif.Havoc("c", &c)
 	verif.Assume(inv(c))
 	abv := verif.NondetString("abv", -8)
@@ -34,13 +33,13 @@ func C07_Set() {
 
 // C07_Zero: the zero value is a reachable object (I1).
 func C07_Zero() {
-	var c gocvss20.CVSS20
+	var c CVSS
 	verif.Assert(inv(c), "zero value satisfies the invariant (I1)")
 }
 
 // C07_Eq: two reachable objects with the same Get values are ==.
 func C07_Eq() {
-	var a, b gocvss20.CVSS20
+	var a, b CVSS
 	verif.Havoc("a", &a)
 	verif.Havoc("b", &b)
 	verif.Assume(inv(a))
